@@ -692,7 +692,7 @@ func c16Adopt(c *run.Ctx, st *c16State, stopAgain, useFS bool, stats *c16Stats) 
 		if resumed[op.Key] {
 			// still pending unless its record was removed before this save
 			pending := true
-			for _, o2 := range w.Store.Ops[opsBefore:] {
+			for _, o2 := range w.Store.Ops {
 				if o2.Op == "delete" && !o2.Err && o2.Key == op.Key && o2.RetSeq < op.CallSeq {
 					pending = false
 				}
